@@ -136,10 +136,9 @@ func (its *WiredDatatype) checkOptionAndError(ppp *model.PushPullPack) errors.Or
 			case errors.PushPullNoDatatypeToSubscribe:
 				return errors.DatatypeSubscribe.New(its.L(), fmt.Sprintf("%v", errOp.GetPushPullError().Msg))
 			}
-			panic("Not implemented yet")
-		} else {
-			panic("Not implemented yet")
+			return errors.ClientSync.New(its.L(), errOp.GetPushPullError().Error())
 		}
+		return errors.ClientSync.New(its.L(), "error pack without an error operation")
 	} else if ppp.GetPushPullPackOption().HasSubscribeBit() {
 		modelOp := ppp.GetOperations()[0]
 		_, ok := operations.ModelToOperation(modelOp).(*operations.SnapshotOperation)
